@@ -710,3 +710,82 @@ theorem toLegacyStruct_fixpoint (d : Dict) (h : legacyNormal (.obj d) = true) :
         simp [toLegacyStruct, h1, h2, h3, g1, g2, g3, g4, g5, g6, g7, g8, g9, pure, Except.pure]
 
 end Gnpy.Yang
+
+namespace Gnpy.Yang
+open Gnpy
+
+/-! ### lifting per-entry round trips to documents (`forEachIn_congr`) -/
+
+theorem mapM_pointwise {α β : Type} (f : α → PyR β) :
+    ∀ l : List α, (∀ x ∈ l, ∃ y, f x = .ok y) →
+      ∃ l', l.mapM f = .ok l' ∧ l'.length = l.length ∧
+        ∀ (i : Nat) x, l[i]? = some x → ∃ y, f x = .ok y ∧ l'[i]? = some y
+  | [], _ => ⟨[], rfl, rfl, by intro i x h; simp at h⟩
+  | a :: as, h => by
+    obtain ⟨y, hy⟩ := h a (by simp)
+    obtain ⟨ys, hys, hlen, hpt⟩ := mapM_pointwise f as (fun x hx => h x (by simp [hx]))
+    refine ⟨y :: ys, ?_, by simp [hlen], ?_⟩
+    · rw [List.mapM_cons]; simp [hy, hys, bind, Except.bind, pure, Except.pure]
+    · intro i x hi
+      cases i with
+      | zero => simp at hi; subst hi; exact ⟨y, hy, by simp⟩
+      | succ j => simp at hi; obtain ⟨y', h1, h2⟩ := hpt j x hi; exact ⟨y', h1, by simpa using h2⟩
+
+/-- `for x in d[key]: f(x)` entry by entry -/
+theorem forEachIn_pointwise (d : Dict) (key : String) (f : Dict → PyR Dict) (l : List J)
+    (hget : d.get? key = some (.arr l)) (hf : ∀ ej ∈ l, ∃ e r, ej = J.obj e ∧ f e = .ok r) :
+    ∃ l', forEachIn d key f = .ok (d.set key (.arr l')) ∧ l'.length = l.length ∧
+      ∀ (i : Nat) e, l[i]? = some (J.obj e) → ∃ r, f e = .ok r ∧ l'[i]? = some (J.obj r) := by
+  obtain ⟨l', hm, hlen, hpt⟩ := mapM_pointwise (fun e => do return J.obj (← f (← asObj e))) l (by
+    intro ej hej
+    obtain ⟨e, r, rfl, hr⟩ := hf ej hej
+    exact ⟨J.obj r, by simp [asObj, hr, bind, Except.bind, pure, Except.pure]⟩)
+  have hm' := hm
+  simp only [bind, Except.bind, pure, Except.pure] at hm'
+  refine ⟨l', by simp only [forEachIn, Dict.get, hget, asArr, bind, Except.bind, pure, Except.pure, hm'], hlen, ?_⟩
+  intro i e hi
+  obtain ⟨y, hy, hy'⟩ := hpt i _ hi
+  obtain ⟨ej, hmem⟩ : ∃ ej, ej = J.obj e := ⟨_, rfl⟩
+  obtain ⟨e0, r, he0, hr⟩ := hf (J.obj e) (List.mem_of_getElem? hi)
+  cases he0
+  simp only [asObj, hr, bind, Except.bind, pure, Except.pure, Except.ok.injEq] at hy
+  exact ⟨r, hr, by rw [hy', ← hy]⟩
+
+/-- **`forEachIn_congr`**: if every entry `e` of `d[key]` makes the round trip `f` then `g` with
+`R e e'`, the document makes the round trip with the same list length, every entry related to its
+image at the same position, and every other member untouched. -/
+theorem forEachIn_roundtrip (d : Dict) (key : String) (f g : Dict → PyR Dict) (l : List J) (R : Dict → Dict → Prop)
+    (hget : d.get? key = some (.arr l))
+    (h : ∀ ej ∈ l, ∃ e y q, ej = J.obj e ∧ f e = .ok y ∧ g y = .ok q ∧ R e q) :
+    ∃ y q l', forEachIn d key f = .ok y ∧ forEachIn y key g = .ok q ∧
+      q.get? key = some (.arr l') ∧ l'.length = l.length ∧ (∀ k, k ≠ key → q.get? k = d.get? k) ∧
+      ∀ (i : Nat) e, l[i]? = some (J.obj e) → ∃ e', l'[i]? = some (J.obj e') ∧ R e e' := by
+  obtain ⟨l1, h1, len1, pt1⟩ := forEachIn_pointwise d key f l hget (fun ej hej => by
+    obtain ⟨e, y, _, rfl, hy, _, _⟩ := h ej hej; exact ⟨e, y, rfl, hy⟩)
+  have hget1 : (d.set key (.arr l1)).get? key = some (.arr l1) := Dict.get?_set_same _ _ _
+  have hg : ∀ yj ∈ l1, ∃ y q, yj = J.obj y ∧ g y = .ok q := by
+    intro yj hyj
+    obtain ⟨i, hi⟩ := List.getElem?_of_mem hyj
+    have hil : i < l.length := by
+      have := (List.getElem?_eq_some_iff.1 hi).1; omega
+    have hli : l[i]? = some l[i] := List.getElem?_eq_getElem hil
+    obtain ⟨e, y, q, he, hy, hq, _⟩ := h l[i] (List.getElem_mem hil)
+    rw [he] at hli
+    obtain ⟨r, hr, hr'⟩ := pt1 i e hli
+    rw [hy] at hr; cases hr
+    rw [hi] at hr'; cases hr'
+    exact ⟨y, q, rfl, hq⟩
+  obtain ⟨l2, h2, len2, pt2⟩ := forEachIn_pointwise (d.set key (.arr l1)) key g l1 hget1 hg
+  refine ⟨_, _, l2, h1, h2, Dict.get?_set_same _ _ _, by omega, ?_, ?_⟩
+  · intro k hk
+    rw [Dict.get?_set_other _ _ _ _ (Ne.symm hk), Dict.get?_set_other _ _ _ _ (Ne.symm hk)]
+  · intro i e hi
+    obtain ⟨e0, y, q, he, hy, hq, hR⟩ := h (J.obj e) (List.mem_of_getElem? hi)
+    cases he
+    obtain ⟨r, hr, hr'⟩ := pt1 i e hi
+    rw [hy] at hr; cases hr
+    obtain ⟨r2, hr2, hr2'⟩ := pt2 i y hr'
+    rw [hq] at hr2; cases hr2
+    exact ⟨q, hr2', hR⟩
+
+end Gnpy.Yang
